@@ -238,8 +238,9 @@ fn build_intent<'b, 'r, 'c, 's:'c, 'm:'c>(rules_with_context: &'r mut SpeechRule
                 let saved_intent = mathml.attribute_value(INTENT_ATTR).unwrap();
                 mathml.remove_attribute(INTENT_ATTR);
                 mathml.set_attribute_value(INTENT_PROPERTY, &properties);   // needs to be set before the pattern match
-                intent = rules_with_context.match_pattern::<Element<'m>>(mathml)?;
-                mathml.set_attribute_value(INTENT_ATTR, saved_intent);
+                let matched_intent = rules_with_context.match_pattern::<Element<'m>>(mathml);
+                mathml.set_attribute_value(INTENT_ATTR, saved_intent);      // restore before reporting any error
+                intent = matched_intent?;
             }
             return Ok(intent);      // if we start with properties, then there can only be properties
         },
